@@ -288,6 +288,40 @@ func runC06(r *mon.Run) {
 		})
 	}
 	recheck("start")
+	r.Serial("pinned", func(t *mon.T) {
+		// fixed: Floor into a destination that held NaN returned NaN (Modf never set Form)
+		c := dec.Ctx{P: 5, Emin: -99, Emax: 99, Mode: "half_even"}
+		x, _ := dec.Parse("15E-1")
+		for _, op := range []string{"floor", "ceil"} {
+			for _, pre := range []dec.D{dec.Special(dec.NaN, false), dec.Special(dec.Inf, true), dec.Special(dec.SNaN, true)} {
+				pre := pre
+				base, _, _ := CallAliased(op, br.Context(c, 0), x, dec.D{}, 0, AliasDistinct, nil)
+				o, _, _ := CallAliased(op, br.Context(c, 0), x, dec.D{}, 0, AliasDistinct, &pre)
+				t.EvalN(2)
+				t.Count("pinned")
+				if why := compareOutcomes(op, base, o); why != "" {
+					t.Fail("outcome-depends-on-destination", detail(op, c, x, dec.D{}, o, why))
+				}
+			}
+		}
+		// fixed: Compose(NaN) kept the previous coefficient as payload
+		dirty := br.ToApd(dec.FromInt(12345, 0))
+		dirty.Compose(2, false, nil, 0)
+		fresh := new(apd.Decimal)
+		fresh.Compose(2, false, nil, 0)
+		t.Count("pinned")
+		if meaningful(br.FromApd(dirty)) != meaningful(br.FromApd(fresh)) {
+			t.Fail("outcome-depends-on-destination", map[string]interface{}{"op": "Compose", "dirty": meaningful(br.FromApd(dirty)), "fresh": meaningful(br.FromApd(fresh))})
+		}
+		// fixed: Decimal.Reduce(0.000) read its count from the destination
+		z, _ := dec.Parse("0E-3")
+		d2 := br.ToApd(dec.FromInt(12345000, 0))
+		_, n := d2.Reduce(br.ToApd(z))
+		t.Count("pinned")
+		if n != 0 {
+			t.Fail("outcome-depends-on-destination", map[string]interface{}{"op": "Decimal.Reduce", "x": "0E-3", "count": n, "why": "count read from the destination"})
+		}
+	})
 	r.Parallel("purity", r.N(120000, 12000000), purityCase)
 	recheck("after-purity")
 	r.Parallel("setters", r.N(80000, 6000000), setterCase)
